@@ -259,6 +259,15 @@ int close(int fd)
 	f = &kfds[fd];
 	if (k_close_hook)
 		k_close_hook(fd);
+	/* another descriptor may name the same open file (dup2): only the last close counts */
+	for (i = 0; i < KMAXFD; i++)
+		if (i != fd && kfds[i].kind == f->kind && kfds[i].obj == f->obj &&
+		    f->kind != K_GENERIC && f->kind != K_NULL)
+			break;
+	if (i < KMAXFD) {
+		f->kind = K_FREE;
+		return 0;
+	}
 	switch (f->kind) {
 	case K_PIPE_R:
 		kpipes[f->obj].r_open = 0;
